@@ -15,6 +15,7 @@ TECHNIQUE = (
     "text cleaners, all step lists <= 3, all unknown-step values, and all generated element trees (depth <= 2, <= 3 "
     "siblings) for the html cleaner with the visible text known from the generator"
 )
+TECHNIQUE += "; " + 'also: unknown step at every position of every list <= 3, steps as tuple / iterator / generator / callable, units repeated up to 4,099 times and texts beyond 64 KiB / 128 KiB, documents without any visible node; a subset again under python -O'
 RULE = (
     "strings: all strings of length <= n over {space, tab, LF, CR, '_', 'a', NBSP, VT}; steps: all lists of <= 3 step names over "
     "the three text cleaners on the first 3000 strings; html: all element trees built from the grammar (inline/block/hidden "
